@@ -331,7 +331,7 @@ case_st = st.fixed_dictionaries(
     {
         "devices": drivers.deployment(max_devices=3).filter(lambda specs: all(drivers.spec_size_ok(s) for s in specs)),
         "frags": frags_st,
-        "ops": st.lists(op_st | overhear_then_snoop, max_size=25).map(lambda xs: [o for x in xs for o in (x if isinstance(x, list) else [x])][:30]),
+        "ops": st.lists(op_st | overhear_then_snoop | drivers.driver_macro(), max_size=25).map(lambda xs: [o for x in xs for o in (x if isinstance(x, list) else [x])][:30]),
         "early": st.lists(st.integers(0, 2), max_size=2),
     }
 )
